@@ -44,7 +44,7 @@ ASSUMPTIONS = [
     "a fifo counts as a file (pinned by the suite)",
 ]
 FLAGS = "fdrwxcFDRWX"
-PATH_KINDS = ["f_rw", "f_ro", "f_wo", "f_x", "f_none", "dir", "dir_ro", "dir_nox", "fifo", "ln_f", "ln_d", "ln_dangling", "missing", "dir/missing", "dir_ro/missing", "dir_ro/inner",
+PATH_KINDS = ["f_rw", "f_ro", "f_wo", "f_x", "f_none", "dir", "dir_ro", "dir_nox", "fifo", "ln_f", "ln_d", "ln_dangling", "ln_into_missing_dir", "ln_into_ro_dir", "ln_d/newfile", "missing", "dir/missing", "dir_ro/missing", "dir_ro/inner",
               "dir_nox/inner", "nodir/missing", "nodir/sub/missing", "f_rw/under", ".", "..", "~", "/", "/nonexistent_vf/x", "@ABS@/f_rw", "dir/", "f_rw/", "dir/../f_ro", "ln_d/entry"]
 CWDS = ["root", "dir", "/"]
 
@@ -88,6 +88,8 @@ def build_fixture(d):
     os.symlink("f_rw", "ln_f")
     os.symlink("dir", "ln_d")
     os.symlink("nowhere", "ln_dangling")
+    os.symlink("nodir/file", "ln_into_missing_dir")   # dangling, and the directory the target would live in does not exist
+    os.symlink("dir_ro/newfile", "ln_into_ro_dir")    # dangling, the target's directory exists but is not writable (for an unprivileged user)
 
 
 def oracle(p, mode):
